@@ -93,6 +93,23 @@ func observeLoad(tp *onnx.TensorProto) (obs string) {
 			Output:      []*onnx.ValueInfoProto{{Name: "w"}},
 		},
 	}
+	if loadCounter%2 == 0 && len(tp2.Dims) >= 1 {
+		// every other model ALSO lists the initializer as a graph input (a default), declared with another static
+		// shape of the same element count (the dims reversed, or (n,1) for a vector): the initializer keeps the
+		// shape of its own dims
+		decl := make([]int64, len(tp2.Dims))
+		for i, d := range tp2.Dims {
+			decl[len(decl)-1-i] = d
+		}
+		if len(decl) == 1 {
+			decl = append(decl, 1)
+		}
+		var dd []*onnx.TensorShapeProto_Dimension
+		for _, d := range decl {
+			dd = append(dd, &onnx.TensorShapeProto_Dimension{Value: &onnx.TensorShapeProto_Dimension_DimValue{DimValue: d}})
+		}
+		mp.Graph.Input = []*onnx.ValueInfoProto{{Name: "w", Type: &onnx.TypeProto{Value: &onnx.TypeProto_TensorType{TensorType: &onnx.TypeProto_Tensor{ElemType: tp2.DataType, Shape: &onnx.TensorShapeProto{Dim: dd}}}}}}
+	}
 	b, err := proto.Marshal(mp)
 	if err != nil {
 		return "(OErr EOther)"
